@@ -403,10 +403,34 @@ def install_builtins(I):
 
     @nf("zip")
     def _zip(interp, *xss, strict=False):
-        lists = [interp.iterate(xs) for xs in xss]
-        if strict and len({len(l) for l in lists}) > 1:
-            interp.raise_py("ValueError", "zip() arguments have different lengths")
-        return GenList(list(zip(*lists)))
+        # iterators (generators, iter(...)) are STATEFUL and may be passed more than once (`zip(it, it)` pairs consecutive
+        # elements): consume them element by element in argument order, as CPython does - including the element that is
+        # taken from an earlier argument in the round in which a later one turns out to be exhausted
+        its = []
+        for xs in xss:
+            its.append(xs if isinstance(xs, GenList) else GenList(interp.iterate(xs)))
+        out = []
+        exhausted_at = None
+        while exhausted_at is None:
+            row = []
+            k = 0
+            for it in its:
+                if it.pos < len(it.items):
+                    interp.mutating(it)
+                    row.append(it.items[it.pos])
+                    it.pos += 1
+                else:
+                    exhausted_at = k
+                    break
+                k += 1
+            if exhausted_at is None:
+                if len(its) == 0:
+                    break
+                out.append(tuple(row))
+        if strict and len(its) > 0:
+            if (exhausted_at or 0) > 0 or any(it.pos < len(it.items) for it in its):
+                interp.raise_py("ValueError", "zip() arguments have different lengths")
+        return GenList(out)
 
     @nf("reversed")
     def _reversed(interp, xs):
